@@ -65,7 +65,9 @@ ASSUMPTIONS = [
     "the only inter-thread communication of the workloads is through the tracked locations (guard: every rebinding or "
     "in-place size/identity change of a celpy module global or class attribute seen by a before/after snapshot must have "
     "an extracted write event, else the run is a harness error)",
-    "delaying a thread at a line boundary does not itself change what the code computes",
+    "delaying a thread at a line boundary does not itself change what the code computes; one known exception, stated: a "
+    "gate callback is a Python call, so a thread held ABOVE a recursion limit that another thread has just lowered gets its "
+    "RecursionError at the gate instead of at its own next call (the same holds in the clean-interpreter replay)",
     "every scenario (extraction, solo runs, forced replays, clean-interpreter oracle) starts from recursion limit 1000 and "
     "the previous limit is put back afterwards; a change of the limit or switch interval by a workload without an "
     "extracted write event is a harness error (same snapshot guard)",
